@@ -303,7 +303,8 @@ func (g *WireGen) genComb(c *Comb, malformed float64, nkeys *int) []string {
 			return []string{strconv.FormatInt(g.NowSec+int64(3600*(1+g.pick(3))), 10)}
 		}
 		if !bad && d == "atms" {
-			return []string{strconv.FormatInt((g.NowSec+int64(3600*(1+g.pick(3))))*1000, 10)}
+			// not only whole seconds
+			return []string{strconv.FormatInt((g.NowSec+int64(3600*(1+g.pick(3))))*1000+[]int64{0, 1, 250, 999}[g.pick(4)], 10)}
 		}
 		if !bad && (d == "cursor") {
 			if g.CursorZero {
